@@ -54,6 +54,19 @@ def strip_wrappers(t):
     return t
 
 
+def strip_subsets(t):
+    """like strip_wrappers, and a slice of a collection counts as the
+    collection: sound wherever only 'every element of t is an element of the
+    result' is used (membership / scoping), not where completeness matters"""
+    while True:
+        t2 = strip_wrappers(t)
+        if isinstance(t2, tuple) and t2 and t2[0] == "slice":
+            t2 = t2[1]
+        if t2 == t:
+            return t
+        t = t2
+
+
 def show(t, depth=0):
     """compact human-readable rendering"""
     if not isinstance(t, tuple) or not t:
